@@ -134,6 +134,7 @@ pub fn get(prop: &str, tier: &str) -> Option<Check> {
             rule_text: "each run: real TCP server task with max_sessions in 0..5, 4-28 actions over {connect (optionally with the oldest session left mid-frame), client close/half-close, sentinel request, bad header / read error / unknown function on one connection, set decode level, shutdown, drop handle}; after every action the set of open connections must equal model::sessions (ordered live set, limit max(1,max_sessions), oldest evicted exactly at the limit), every live session answers its sentinel correctly whatever happened on the others, after shutdown/handle drop the task has ended, every connection is closed and new connects are refused. Distinct = hash of (max_sessions, decode level, action kinds).",
             batches: vec![
                 Batch { name: "server_sessions", f: scen::sessions::run_sessions, cfg: cfg(Mode::LockStep, false, 0), runs: n(100_000, 3_000_000), real: REAL_SERVER_TCP, stub: STUB_SERVER_TCP },
+                Batch { name: "tls_handshake_stall_server", f: scen::tls::run_handshake_stall, cfg: cfg(Mode::Racy, true, 1), runs: n(600, 20_000), real: REAL_TLS, stub: STUB_TLS },
             ],
             assumptions: vec!["TLS servers share the session tracker; the TLS handshake phase is judged under C07/C09"],
         },
@@ -161,6 +162,8 @@ pub fn get(prop: &str, tier: &str) -> Option<Check> {
                 Batch { name: "server_tcp_model", f: scen::server_tcp::run_model, cfg: cfg(Mode::LockStep, false, 0), runs: n(20_000, 500_000), real: REAL_SERVER_TCP, stub: STUB_SERVER_TCP },
                 Batch { name: "rtu_server_model", f: scen::rtu::run_server_model, cfg: cfg(Mode::LockStep, false, 0), runs: n(20_000, 500_000), real: REAL_SERVER_RTU, stub: STUB_SERVER_RTU },
                 Batch { name: "client_lockstep", f: scen::client::run_lockstep, cfg: cfg(Mode::LockStep, true, 2), runs: n(20_000, 500_000), real: REAL_CLIENT_TCP, stub: STUB_CLIENT_TCP },
+                Batch { name: "tls_handshake_stall_client", f: scen::tls::run_handshake_stall, cfg: cfg(Mode::Racy, true, 0), runs: n(600, 20_000), real: REAL_TLS, stub: STUB_TLS },
+                Batch { name: "tls_handshake_stall_server", f: scen::tls::run_handshake_stall, cfg: cfg(Mode::Racy, true, 1), runs: n(600, 20_000), real: REAL_TLS, stub: STUB_TLS },
             ],
             assumptions: vec!["a peer that never reads is a bounded-liveness premise, not a violation (flow-control stalls are finite)", "TLS handshake phase: see C09 and the known finding on handshake deadlines"],
         },
